@@ -1359,7 +1359,8 @@ namespace avel {
 
     [[nodiscard]]
     AVEL_FINL vec4x32f fdim(vec4x32f x, vec4x32f y) {
-        return avel::max(x - y, vec4x32f{0.0f});
+        //x - y is NaN for equal infinities; <cmath>'s fdim returns +0 there
+        return blend(x <= y, vec4x32f{0.0f}, x - y);
     }
 
     [[nodiscard]]
